@@ -730,12 +730,23 @@ func (g *gen) maint() {
 	case 9:
 		g.add(Step{Op: OpCompact1})
 	case 10:
-		if (g.p.Excl.F1 || g.p.Excl.R3) && g.l0Overlap() {
-			g.excl++
+		// L0->L0 needs at least four L0 tables; below that keep accumulating
+		if len(g.l0tabs) < 4 {
 			g.flush()
 			return
 		}
+		if g.p.Excl.F1 && g.l0Overlap() {
+			g.excl++
+			return
+		}
 		g.add(Step{Op: OpL0L0})
+		u := map[int]bool{}
+		for _, m := range g.l0tabs {
+			for k := range m {
+				u[k] = true
+			}
+		}
+		g.l0tabs = []map[int]bool{u}
 	default:
 		lvl := rapid.IntRange(0, 6).Draw(t, "level")
 		mode := rapid.IntRange(0, 2).Draw(t, "mode")
@@ -774,6 +785,8 @@ func (g *gen) flush() {
 		}
 	}
 	g.add(Step{Op: OpFlush})
-	g.l0tabs = append(g.l0tabs, nt)
+	if len(nt) > 0 { // flushing an empty memtable creates no table
+		g.l0tabs = append(g.l0tabs, nt)
+	}
 	g.dirty = map[int]bool{}
 }
